@@ -530,6 +530,8 @@ func c10Declarations(r *rep.Run) {
 func c10ConstantCalls(r *rep.Run) {
 	all := sweepOperands()
 	small := []*term.Term{term.Const(1), term.Const(0), term.Const(true), term.Const("a")}
+	// arity 3: also list constants (equal lists in several positions)
+	mid := append(append([]*term.Term{}, small...), term.Const([]int64{1, 2}), term.Const([]string{"a"}))
 	type job struct {
 		name string
 		args []*term.Term
@@ -552,7 +554,7 @@ func c10ConstantCalls(r *rep.Run) {
 		for ar := 0; ar <= 3; ar++ {
 			ops := all
 			if ar == 3 && !r.Thorough() {
-				ops = small
+				ops = mid
 			}
 			rec(n, nil, ar, ops)
 		}
@@ -566,9 +568,9 @@ func c10ConstantCalls(r *rep.Run) {
 		h := hs[w]
 		core := term.Op(j.name, term.TX, j.args...)
 		cv, cerr := envFor(nil, nil).Eval(core)
-		if cerr == ref.ErrUndefined {
-			return
-		}
+		// where the reference does not define the call's outcome (equality of
+		// lists) only the compile-time oracles and "no panic" apply
+		undefined := cerr == ref.ErrUndefined
 		if cerr != nil {
 			atomic.AddInt64(&failing, 1)
 		}
@@ -596,8 +598,17 @@ func c10ConstantCalls(r *rep.Run) {
 					got := h.Eval(e, f)
 					atomic.AddInt64(&evals, 1)
 					want := refOut(cv, cerr)
+					reached := true
 					if (ci == 1 && !cval) || (ci == 2 && cval) {
 						want = drive.Out{Val: int64(7)}
+						reached = false
+					}
+					if got.Panic != nil {
+						r.Violate("constant-call-panic", "call"+j.name+o.String(), sprintf("%s with c=%v under %s: Eval panics: %v (at %s)", src, cval, o, got.Panic, got.Site), d)
+						continue
+					}
+					if undefined && reached {
+						continue
 					}
 					if !drive.SameOutcome(got, want) {
 						r.Violate("constant-call-outcome", "call"+j.name+o.String(), sprintf("%s with c=%v under %s: Eval=%s, the reference gives %s", src, cval, o, got, want), d)
